@@ -156,7 +156,12 @@ StageFn(st, X) ==
   IN
   CASE st.kind = "base" ->
          LET r == BaseRun(st, xs, 1, <<>>) IN Stream(r.out, IF r.stopped THEN "end" ELSE X.fin, X.bad \/ raises)
-    [] st.kind = "map" -> Stream([j \in 1..n |-> ApplyFn(st.f, xs[j])], X.fin, X.bad \/ raises)
+    [] st.kind = "map" ->
+         \* SKIP / STOP are control values: a pipeline in which the SKIP or STOP object itself travels on as an
+         \* ordinary stream item (a .map function produced it; map is plain map and does not interpret it) is
+         \* outside the contract, hence flagged like an ill-typed one
+         Stream([j \in 1..n |-> ApplyFn(st.f, xs[j])], X.fin,
+                X.bad \/ raises \/ \E j \in 1..n : ApplyFn(st.f, xs[j]).k = "sent")
     [] st.kind = "filter" -> Stream(SelectSeq(xs, LAMBDA v : PredFn(st.f, v)), X.fin, X.bad \/ raises)
     [] st.kind = "slice" ->
          LET idx == SelectSeq([j \in 1..n |-> j], LAMBDA j : SliceSelected(st, j - 1)) IN
